@@ -20,10 +20,11 @@ oracles and the clauses of the property they cover
   C01/values        "the value reported for each unordered pair of condition labels equals the formula on the two per-condition
                     mean patterns", "one row/column per distinct label", labels describe the order: single dataset, with a
                     condition descriptor or without (one condition per observation, identified through the 'oid' descriptor).
-                    Domains: EXHAUSTIVE over all label sequences of length <= 4 (thorough 6) onto <= 4 conditions x label
-                    naming schemes (int, str, numeric-looking str, float; first-appearance, alphabetical and numeric orders
-                    all differ) x 11 method/option combinations; seeded shapes (2..7 conditions, 1..4 repetitions unbalanced,
-                    1..8 channels, signed / positive / integer data, list / array descriptors, extra descriptors).
+                    Domains: EXHAUSTIVE over all label sequences of length <= 4 onto <= 4 conditions (thorough: length <= 6
+                    onto <= 3 and length <= 5 onto 4 conditions) x label naming schemes (int, str, numeric-looking str, float;
+                    first-appearance, alphabetical and numeric orders all differ) x 11 method/option combinations; seeded
+                    shapes (2..7 conditions, 1..4 repetitions unbalanced, 1..8 channels, signed / positive / integer data,
+                    list / array descriptors, extra descriptors).
   C01/descriptors   "the dataset's descriptors attached to the right RDM and condition": every obs descriptor that is constant
                     within each condition is attached to that condition, a varying one is never attached with a foreign value,
                     every dataset descriptor sits on the RDM, the dissimilarity measure names the method.
@@ -41,8 +42,8 @@ oracles and the clauses of the property they cover
   C01/sequence      the MULTI-STEP clause: several methods / options called one after another on the SAME dataset object (and
                     the same precision object, the same list object) must each equal the formula computed from a private copy of
                     the raw numbers: EXHAUSTIVE over ordered pairs of steps from the 11-step alphabet x descriptor / none x
-                    float / int data (single), 8-step alphabet incl. one shared list of per-dataset precisions (list form), movie form;
-                    seeded sequences of length 6.
+                    float / int data (single), 8-step alphabet incl. one shared list of per-dataset precisions (list form),
+                    movie form; seeded sequences of length 6.
   C01/movie         "an RDM movie equals the stack of RDMs computed separately at each (binned) time point": per distinct
                     (binned) time value the formula on the condition means of exactly the samples at that time; bins by
                     membership; time labels on the RDMs; sorted / unsorted axes, list / array time descriptors, other time
@@ -52,14 +53,18 @@ oracles and the clauses of the property they cover
                     time_descriptor).
 
 input_class labels of the defects of the unchanged tree (see C01_findings.md), each fails only in its own class:
-  'list,remove_mean'                         calc_rdm list branch drops remove_mean
-  'list,single-dataset'                      one-element list loses the dataset descriptors (C01/list-descriptors, movie-labels)
+  'list,remove_mean'                         calc_rdm list branch drops remove_mean (C01/list)
+  'list,single-dataset'                      one-element list loses the dataset descriptors / the time labels
+                                             (C01/list-descriptors; labels check of C01/movie-list)
+  'movie,single-time-point'                  same loss for a movie with a single time point (C01/movie-labels)
   'list,noise-per-dataset,different-n-channel'  per-dataset precisions of different sizes -> ValueError in the descriptor merge
   'list-no-descriptor,list-typed-unique-obs-descriptor,differing-order'   TypeError in concat
   'list-no-descriptor,unique-obs-descriptor,different-values'             ValueError in concat
   'movie-list,prior' / 'movie-list,bins' / 'movie-list,time_descriptor'   calc_rdm_movie list branch drops the options
-  'movie,duplicate-time-values' / 'movie,single-channel' / 'movie,bins-as-lists' / 'movie,bins,list-typed-time-descriptor'
-                                             calc_rdm_movie raises (roots in TemporalDataset, cf. C11)
+  'movie,duplicate-time-values' / 'movie,single-channel' / 'movie,bins-as-lists' / 'movie,bins,list-typed-time-descriptor' /
+  'movie,bins,second-time-descriptor'        calc_rdm_movie raises (roots in TemporalDataset, cf. C11)
+For duplicate (binned) time values both readings of "each time point" are accepted (one RDM per distinct time VALUE with all
+samples at that value as observations, or one RDM per time INDEX).
 
 NOT covered by this tier: cross-validated methods (crossnobis, poisson_cv: C02) and `unbalanced=True`; float32 data and the
 size of rounding errors (tolerance 1e-9 relative to max(1, |expected|), DESIGN "not decided"); correlation between patterns
@@ -291,7 +296,7 @@ def _noise(rs, n_ch, which):
     raise ValueError(which)
 
 
-def _container(values, desc_type, str_dtype=False):
+def _container(values, desc_type):
     if desc_type == 'array':
         return np.array(values)
     return list(values)
@@ -1118,7 +1123,7 @@ def tier_c(run, thorough):
     bd = Bounded(run, 'C01/list', 'C01/calc_rdm[list]/oracle/rdm-i-is-formula-on-dataset-i-with-the-same-options',
                  'lists of 2 datasets over ALL ordered arrangements of non-empty subsets of 3 labels for each dataset (%d x %d; same '
                  'and differing condition sets, unbalanced repetitions) x 2 naming schemes x methods rotated over 8 combinations '
-                 'without remove_mean; plus seeded lists of 1..4 datasets x 11+4 method/option combinations incl. remove_mean, '
+                 'without remove_mean; plus seeded lists of 1..4 datasets x 11+8 method/option combinations incl. remove_mean, '
                  'shared / per-dataset (list, tuple, 3-D array) precisions, differing channel counts, list / tuple container'
                  % (len(arr), len(arr)), exhaustive=True, function='calc_rdm')
     i = 0
@@ -1135,7 +1140,10 @@ def tier_c(run, thorough):
                                         kind=('pos', 'count')[i % 2], method=method, opt=opt, desc=('list', 'array')[i % 2]),
                          ('same-conditions' if same else 'differing-conditions'), function='from_partials')
     list_grid = GRID + [('mahalanobis', {'noise': 'per-dataset'}), ('mahalanobis', {'noise': 'per-dataset-tuple'}),
-                        ('mahalanobis', {'noise': 'per-dataset-3d'}), ('mahalanobis', {'noise': 'per-dataset', 'remove_mean': True})]
+                        ('mahalanobis', {'noise': 'per-dataset-3d'}), ('mahalanobis', {'noise': 'per-dataset', 'remove_mean': True}),
+                        # a precision handed over with a method that does not use it must not disturb the other options
+                        ('poisson', {'prior': [2.0, 0.5], 'noise': 'spd'}), ('poisson', {'prior': [0.5, 2.0], 'noise': 'per-dataset'}),
+                        ('euclidean', {'noise': 'spd'}), ('correlation', {'noise': 'per-dataset'})]
     n_seed = 24 if thorough else 6
     for seed in range(n_seed):
         rs = np.random.RandomState(3000 + seed)
@@ -1283,6 +1291,8 @@ def tier_c(run, thorough):
                     continue
                 i += 1
                 m0, m1 = sum(b0) / len(b0), sum(b1) / len(b1)
+                if i % 4 == 1:
+                    b0 = b0 + [7.25]          # a listed value that is no time point of the dataset: no member, no effect
                 method, opt = movie_grid[i % len(movie_grid)]
                 cases.append((dict(seed=i % 61, labels=label_seqs[0], names=NAMES[('str', 'int')[i % 2]], P=3, kind='pos',
                                    times=list(axis), tdesc='array', method=method, opt=opt, descriptor='cond',
@@ -1307,7 +1317,7 @@ def tier_c(run, thorough):
     bd = Bounded(run, 'C01/movie', 'C01/calc_rdm_movie/oracle/movie-is-stack-of-per-time-point-rdms',
                  'ALL orders of 1..%d distinct time values x 3 label sequences (2..4 conditions) x 6 method/option combinations%s, '
                  'list / array time and obs descriptors, time descriptor "time" / other, with / without condition descriptor; '
-                 'ALL assignments of %s time points (3 axis orders) to two possibly overlapping / non-covering non-empty bins (%d '
+                 'ALL assignments of %s time points (3 axis orders) to two possibly overlapping / non-covering non-empty bins, every fourth with an extra value that is no time point (%d '
                  'cases); duplicate time values / equal bin means; single channel; bins as lists; list-typed time descriptor with bins'
                  % (4 if thorough else 3, '' if thorough else ' (every third case)', '3 and 4' if thorough else '3', n_bins_cases),
                  exhaustive=bool(thorough), function='calc_rdm_movie')
